@@ -1,9 +1,74 @@
 //! dump: prints constants and tables of the built crate, one per line,
 //! for the generator of coq/Gen/Generated.v
 use sameold::verif;
+use sameold::{Originator, SameReceiverBuilder, SignificanceLevel};
+use verif_harness::hexio::hex_of_bytes;
+
+fn hs(s: &str) -> String {
+    hex_of_bytes(s.as_bytes())
+}
 
 fn main() {
     for (k, v) in verif::constants() {
         println!("const {} {}", k, v);
     }
+    let b = SameReceiverBuilder::default();
+    println!("const DEFAULT_PREAMBLE_MAX_ERRORS {}", b.preamble_max_errors());
+    println!("const DEFAULT_FRAME_PREFIX_MAX_ERRORS {}", b.frame_prefix_max_errors());
+    println!("const DEFAULT_FRAME_MAX_INVALID {}", b.frame_max_invalid());
+    println!("const DEFAULT_INPUT_RATE {}", b.input_rate());
+
+    for p in verif::phenomena() {
+        let flags = [p.is_national() as u8, p.is_test() as u8, p.is_weather() as u8];
+        println!(
+            "row PHENOMENA {} {} {} {}",
+            hs(&format!("{:?}", p)),
+            hs(p.as_brief_str()),
+            hs(verif::phenomenon_pattern(p)),
+            hex_of_bytes(&flags)
+        );
+    }
+    for (k, p, s) in verif::codebook3() {
+        println!("row CODEBOOK3 {} {} {}", hs(k), hs(&format!("{:?}", p)), hs(&format!("{:?}", s)));
+    }
+    for (k, p) in verif::codebook2() {
+        println!("row CODEBOOK2 {} {}", hs(k), hs(&format!("{:?}", p)));
+    }
+    for s in verif::significance_levels() {
+        println!(
+            "row SIGNIFICANCE {} {} {} {}",
+            hs(&format!("{:?}", s)),
+            hs(s.as_code_str()),
+            hs(s.as_display_str()),
+            hex_of_bytes(&[s as u8])
+        );
+    }
+    let origs = [
+        Originator::Unknown,
+        Originator::PrimaryEntryPoint,
+        Originator::CivilAuthority,
+        Originator::NationalWeatherService,
+        Originator::EnvironmentCanada,
+        Originator::BroadcastStation,
+    ];
+    let mut cands: Vec<String> = vec!["".to_owned()];
+    for o in origs.iter() {
+        println!(
+            "row ORIGINATORS {} {} {}",
+            hs(&format!("{:?}", o)),
+            hs(o.as_code_str()),
+            hs(o.as_display_str())
+        );
+        cands.push(format!("{:?}", o));
+        cands.push(o.as_code_str().to_owned());
+    }
+    cands.sort();
+    cands.dedup();
+    // which strings the derived FromStr accepts (probed over codes and variant names)
+    for c in cands {
+        if let Ok(o) = c.parse::<Originator>() {
+            println!("row ORIGINATOR_PARSE {} {}", hs(&c), hs(&format!("{:?}", o)));
+        }
+    }
+    let _ = SignificanceLevel::Unknown;
 }
